@@ -71,6 +71,10 @@ def build_scn(c, seed=0, coolant=None, dz_user=None):
                              'convection_factor': c.get('cf', 1.0)},
                    'upper': {'z_lo': round(3 * L / 4, 9), 'z_hi': L, 'vf_coolant': 0.35,
                              'model': '6node', 'convection_factor': c.get('cf', 1.0)}}
+    elif st == 'multi-thin':
+        # un-rodded regions thinner than any step at both ends: each of them is exactly one axial step
+        regions = {'lower': {'z_lo': 0.0, 'z_hi': 2.0e-5, 'vf_coolant': 0.3},
+                   'upper': {'z_lo': round(L - 3.0e-5, 9), 'z_hi': L, 'vf_coolant': 0.35}}
     elif st in ('lf-simple', 'lf-6node'):
         lowfi = {'model': 'simple' if st == 'lf-simple' else '6node',
                  'convection_factor': c.get('cf', 1.0)}
@@ -170,6 +174,8 @@ def cases_sweep(tier):
         for du in ('1', '2f'):
             for cf in (1.0, 0.5):
                 out.append(dict(base, ducts=du, structure='multi', wall='none', planes='near', cf=cf))
+            for wall in ('none', 'flow'):
+                out.append(dict(base, ducts=du, structure='multi-thin', wall=wall))
         for st in ('multi', 'lf-simple', 'lf-6node'):
             for cf in (1.0, 0.5):
                 for wall in ('none', 'flow'):
@@ -304,7 +310,7 @@ def run_sweep(c):
         # horizon: sweeps are truncated after `cap` axial steps (each step of
         # the truncated sweep is still a checked state); multi-region
         # structures are always swept to the top so region changes occur
-        cap = 4000 if c.get('structure') == 'multi' else c.get('max_steps', 500)
+        cap = 4000 if str(c.get('structure')).startswith('multi') else c.get('max_steps', 500)
         O.sweep(rx, rec, max_steps=cap)
         if len(rx.z) - 1 > cap:
             r['extra'] = {'truncated_sweeps': 1}
